@@ -493,6 +493,9 @@ Proof. witness [0; 0; 1; 1]%nat. Qed.
 Lemma race_str : exists sched, race_witness prog_version zero_store sched S_str.
 Proof. witness [0]%nat. Qed.
 
+Lemma race_mbstate : exists sched, race_witness prog_mbstate mbstate_store sched S_mbstate.
+Proof. witness [0]%nat. Qed.           (* both handles about to call mbrtowc(..., NULL) *)
+
 Lemma witnessed_all : Forall (fun n => exists p s0 sched, race_witness p s0 sched n) witnessed.
 Proof.
   unfold witnessed. repeat constructor.
@@ -508,6 +511,7 @@ Proof.
   - destruct race_dos_max_unix as [x H]. eauto.
   - destruct race_dos_min_unix as [x H]. eauto.
   - destruct race_str as [x H]. eauto.
+  - destruct race_mbstate as [x H]. eauto.
 Qed.
 
 (* for ANY table: an entry that is not synchronised and whose site is modelled here makes the
@@ -568,6 +572,11 @@ Proof. differ [0;0;1;1;1;0;0]%nat. Qed.
 (* a disk reader compares through the OTHER handle's stat pointer *)
 Lemma lst_pointer_differs : differs prog_disk disk_store (Private 0 "lst_used").
 Proof. differ [0;1;0;1]%nat. Qed.
+
+(* the ASCII name of handle 0 fails to convert (-1) when handle 1's incomplete character is decoded between
+   its two characters; alone, or one handle after the other, it converts to 'c' = 99 *)
+Lemma mbstate_result_differs : differs prog_mbstate mbstate_store (Private 0 "out2").
+Proof. differ [0;1;0]%nat. Qed.
 
 (* ---------------------------------------------------------------- non-vacuity *)
 Lemma good_policy_ok : policy_okb (policy_of_table good_table) prog_good = true.
